@@ -30,7 +30,7 @@ open Dmr Dmr.Py
 
 /-- `ba2int(a)` (unsigned) of a big-endian bitarray: `ValueError` ("non-empty bitarray expected") on an empty one, else
 index 0 is the most significant bit -/
-def ba2int (l : List Bool) : PyM Int := if l.isEmpty then throw .value else pure (Int.ofNat (bitsToNat l))
+def ba2int (l : List Bool) : PyM Int := if l.isEmpty then throw .value else pure ((bitsToNat l : Nat) : Int)
 
 /-- `ba2int(a)` of a little-endian container kept in index order: index 0 is the least significant bit -/
 def ba2intLE (l : List Bool) : PyM Int := ba2int l.reverse
@@ -82,7 +82,7 @@ every run by calling the live class (`Gen/Elements.lean`); `.member m` = the mem
 def enumCall (E : Elem) (v : Int) : PyM Int :=
   if v < 0 then throw (.unsupported ("enum call outside the extracted graph: " ++ E.name))
   else match E.graph[v.toNat]? with
-    | some (.member m) => pure (Int.ofNat m)
+    | some (.member m) => pure ((m : Nat) : Int)
     | some .valueError => throw .value
     | some .assertionError => throw .assertion
     | some .nothing => throw .value
@@ -132,7 +132,7 @@ def PyVal.ofOpt {α : Type} (f : α → PyVal) : Option α → PyVal
 
 /-! ### simp lemmas -/
 
-theorem ba2int_of_length_pos (l : List Bool) (h : 0 < l.length) : ba2int l = .ok (Int.ofNat (bitsToNat l)) := by
+theorem ba2int_of_length_pos (l : List Bool) (h : 0 < l.length) : ba2int l = .ok ((bitsToNat l : Nat) : Int) := by
   unfold ba2int
   cases l with
   | nil => simp at h
@@ -182,7 +182,7 @@ theorem getBit_lit (l : List Bool) (k : Nat) (h : k < l.length) :
 /-- the enum call on a natural inside the graph's domain -/
 theorem enumCall_ofNat (E : Elem) (v : Nat) :
     enumCall E (v : Int) = match E.graph[v]? with
-      | some (.member m) => .ok (Int.ofNat m)
+      | some (.member m) => .ok ((m : Nat) : Int)
       | some .valueError => .error .value
       | some .assertionError => .error .assertion
       | some .nothing => .error .value
